@@ -153,7 +153,13 @@ func c02V6Shape() (s string, nf int, hasEll, hasTail bool) {
 		if i == wide {
 			w = width
 		}
-		b = c02HexField(b, w)
+		if i == wide || i == 0 {
+			b = c02HexField(b, w)
+		} else {
+			// decimal digits in the remaining fields (every hex-digit class
+			// in every field is 3^fields paths in the reference parser)
+			b = c02Octet(b, w)
+		}
 	}
 	if hasTail {
 		switch {
@@ -292,7 +298,7 @@ func VerifC02HostnameBoundaries() {
 }
 
 // VerifC02LongPorts: "1.2.3.4:" / "[::1]:" followed by a decimal port that is
-// either 1..7 (thorough: 1..24) arbitrary digits, or a member of the
+// either 1..7 (thorough: 1..10) arbitrary digits, or a member of the
 // accumulator-boundary family: 0..3 leading zeros, the leading decimal digits
 // of 2^16, 2^31, 2^32, 2^63 or 2^64, and five arbitrary digits in place of the
 // last five (so every value within 10^5 of these powers of two, where a 16-,
@@ -309,7 +315,7 @@ func VerifC02LongPorts() {
 	if verifrt.Bool2() {
 		max := 7
 		if verifrt.Thorough() {
-			max = 24
+			max = 10
 		}
 		n = 1 + verifrt.Len(max-1)
 	} else {
